@@ -93,6 +93,12 @@ class EncEngine:
             res["status"] = "machinery"
             res["detail"] = str(e)[-1500:]
             return res
+        rin = core.replay_doc(sk.name)
+        if rin is not None:
+            rp = self.replay(sk, src, name, rin, exclude, only)
+            res.update(inputs=rin, replay=rp, status="violated" if rp["reproduced"] else "held",
+                       failed=[("replay", "VF recorded counterexample replayed natively")])
+            return res
         t0 = time.time()
         v = core.run_cbmc(gb, unwind=24, unwindset=self.uw, timeout=self.timeout, checks="none")
         res["wall"] = time.time() - t0
